@@ -55,6 +55,7 @@ type chanSite struct {
 	instr  ssa.CallInstruction
 	method string
 	recv   ssa.Value
+	args   []ssa.Value     // the operation's arguments as the site's function sees them
 	owners map[string]bool // "server", "client"
 	other  bool            // provenance includes something that is not an owner's channel field
 }
@@ -137,13 +138,96 @@ func chanSites(c *chk.Ctx, methods ...string) []chanSite {
 				!types.Identical(cc.Method.Type().(*types.Signature).Results(), chanSig(c, cc.Method.Name()).Results()) {
 				return
 			}
-			s := chanSite{fn: f, instr: ci, method: cc.Method.Name(), recv: cc.Value}
+			s := chanSite{fn: f, instr: ci, method: cc.Method.Name(), recv: cc.Value, args: cc.Args}
 			s.owners, s.other = ownerOf(c, cc.Value)
+			// a one-line method of a helper record that performs just this operation
+			// (`func (l *link) transmit(b []byte) error { return l.ch.Send(b) }`) is read as
+			// the operation at each of its call sites
+			if lifted, ok := liftChanWrapper(c, s); ok {
+				out = append(out, lifted...)
+				return
+			}
 			out = append(out, s)
 		})
 	}
 	sort.Slice(out, func(i, j int) bool { return out[i].instr.Pos() < out[j].instr.Pos() })
 	return out
+}
+
+// liftChanWrapper: s sits in an unexported, straight-line method whose only call
+// is s itself, made on a channel read from a field of the receiver, with the
+// method's own parameters as arguments and its result returned as it is.
+func liftChanWrapper(c *chk.Ctx, s chanSite) ([]chanSite, bool) {
+	h := s.fn
+	if h.Parent() != nil || ir.Exported(h) || len(h.Blocks) != 1 || h.Signature.Recv() == nil || c.P.UsedAsValue(h) {
+		return nil, false
+	}
+	if _, isOwner := map[*types.Named]bool{c.M.Server: true, c.M.Client: true}[ir.RecvNamed(h)]; isOwner {
+		return nil, false
+	}
+	if _, ok := facts.LoadPath(s.recv); !ok {
+		return nil, false
+	}
+	paramIdx := func(v ssa.Value) int {
+		p, ok := ir.NormCell(v).(*ssa.Parameter)
+		if !ok {
+			return -1
+		}
+		for i, q := range h.Params {
+			if q == p {
+				return i
+			}
+		}
+		return -1
+	}
+	for _, ins := range h.Blocks[0].Instrs {
+		switch x := ins.(type) {
+		case ssa.CallInstruction:
+			if x != s.instr {
+				return nil, false
+			}
+		case *ssa.Store:
+			if al, isAl := x.Addr.(*ssa.Alloc); !isAl || al.Heap {
+				return nil, false
+			}
+		case *ssa.Return:
+			for _, r := range x.Results {
+				v := ir.NormCell(r)
+				if v != s.instr.Value() && !ir.IsExtractOfAny(v, s.instr.Value()) {
+					return nil, false
+				}
+			}
+		case *ssa.Send, *ssa.MapUpdate, *ssa.Panic, *ssa.Select:
+			return nil, false
+		}
+	}
+	var idx []int
+	for _, a := range s.args {
+		i := paramIdx(a)
+		if i < 0 {
+			return nil, false
+		}
+		idx = append(idx, i)
+	}
+	sites := c.P.Callers(h)
+	if len(sites) == 0 {
+		return nil, false
+	}
+	var out []chanSite
+	for _, cs := range sites {
+		if _, isGo := cs.Instr.(*ssa.Go); isGo {
+			return nil, false
+		}
+		ls := chanSite{fn: cs.Caller, instr: cs.Instr, method: s.method, recv: s.recv, owners: s.owners, other: s.other}
+		for _, i := range idx {
+			if i >= len(cs.Instr.Common().Args) {
+				return nil, false
+			}
+			ls.args = append(ls.args, cs.Instr.Common().Args[i])
+		}
+		out = append(out, ls)
+	}
+	return out, true
 }
 
 func chanSig(c *chk.Ctx, method string) *types.Signature {
@@ -637,7 +721,7 @@ func ruleSendWholeMessages(c *chk.Ctx) {
 		return false
 	}
 	for _, s := range chanSites(c, "Send") {
-		args := s.instr.Common().Args
+		args := s.args
 		if len(args) != 1 {
 			continue
 		}
